@@ -24,6 +24,15 @@ CHECKS = {
  "C07": ("differential property-based testing: generated read/seek scripts vs std::io::Cursor in lock step; generated chunk/flush/drop schedules with read-back",
          "Read handles from both backends are driven by generated scripts (extreme offsets included) in lock step with std::io::Cursor: same result and same position after every call; write/append handles with arbitrary chunking, flush points and drop point must make exactly the bytes written so far visible at each flush and at drop.",
          "std::io::Cursor as reference; kernel limits on file offsets (>2^62 excluded on Stdfs)", "4 C07"),
+ "C09": ("bounded-exhaustive enumeration of trees x (src,dst) pairs x option sets with postcondition predicates over before/after dumps",
+         "All 3025 trees of a two-level namespace (files, dirs, links incl. dangling, varied modes/owners) x all 144 ordered pairs of 12 argument paths x {copy, chmod_all, chmod_dirs, chmod_files, follow, move_p} on Memfs (quick: a seeded third of the trees); postconditions on the dumps before/after: source untouched, every source entry copied faithfully, modes of new entries, existing entries kept, no collateral change, move relocates exactly, failed move changes nothing, C03 invariants.",
+         "hook H2 dump; placement under follow with links in the source is only frame-checked; the Stdfs side of the same calls is C02's job", "4 C09"),
+ "C10": ("bounded-exhaustive enumeration of (link position, target position, target kind, spelling) with round-trip and frame oracles on both backends",
+         "Every link/target position pair up to depth 3/4, five target kinds, four spellings on Memfs and a seeded part on a tmpfs Stdfs sandbox (std::fs::read_link as observer): readlink/readlink_abs round trip, link exclusion, recorded kind, readlink on non-links, follow() swap semantics, symlink over an existing link, chmod/chown/remove acting on the link only.",
+         "ref_clean/ref_relative; kernel symlink semantics on tmpfs; uid 0 for chown", "4 C10"),
+ "C11": ("bounded-exhaustive enumeration (512 modes x 945 clauses x kinds, double clauses, octal values, corrupted expressions) vs a reference grammar interpreter; model-based random trees x option sets",
+         "Every permission value x every well-formed single clause x {file,dir} (links on 64 values), sampled/all double clauses, corruptions of well-formed expressions, octal values, the same clauses on a tmpfs Stdfs sandbox, compared with a reference interpreter of the documented grammar; random trees with one chmod/chown builder call under every option combination compared entry by entry with the reference model.",
+         "reference interpreter chmod_sym (harness/src/fsmodel.rs); lenient extensions of the grammar are not asserted; octal 0 is a recorded known finding", "4 C11"),
  "C12": ("bounded-exhaustive adversarial argument enumeration + seeded random arguments for every public function, with a catch_unwind / CPU-watchdog / post-call usability oracle",
          "Every call form of the Memfs API on every string over a 19-symbol adversarial alphabet up to length 2/3 from fresh and populated instances (pairs for two-path calls), random long / deep / huge arguments, every public helper and extension function, read-handle seek scripts: no panic, returns within a CPU budget, C03 invariants and a probe sequence succeed afterwards.",
          "10-20 s thread-CPU budget stands for 'bounded time'; non-UTF-8 paths out of domain", "4 C12"),
